@@ -12,6 +12,8 @@ mod c05;
 mod c15;
 mod c08;
 mod c07;
+mod c16;
+mod c12;
 
 fn main() {
 	let args = util::parse_args();
@@ -29,6 +31,8 @@ fn main() {
 		"C15" => c15::run(&args),
 		"C08" => c08::run(&args),
 		"C07" => c07::run(&args),
+		"C16" => c16::run(&args),
+		"C12" => c12::run(&args),
 		p => {
 			eprintln!("unknown property {p}");
 			std::process::exit(2);
